@@ -198,9 +198,12 @@ def build_url(U, base, v, how):
     u.username = v['username']
     u.password = v['password']
     u.path_parts = tuple(v['path'])
+    u.fragment = v['fragment']
+    # render in the middle of the history, then change the query in place: an earlier rendering must not be remembered
+    u.to_text()
+    u.to_text(full_quote=True)
     for k, val in v['query']:
         u.query_params.add(k, val)
-    u.fragment = v['fragment']
     return u, parsed
 
 
